@@ -83,8 +83,11 @@ def main():
     try:
         for p in ["C02", "C03", "C13", "C14", "C15", "C16", "C20"]:
             t0 = time.time()
-            rc, out = sh("./check %s quick 2>&1 | grep -v '^KNOWN-FINDING' | cut -c1-700 | head -8" % p, cwd=VERIF)
-            rc2 = 1 if "VIOLATION property=" in out else (2 if "check:" in out and "violations:" not in out else 0)
+            rc, full = sh("./check %s quick 2>&1 | grep -v '^KNOWN-FINDING' | cut -c1-700" % p, cwd=VERIF)
+            # (a run that never printed its summary line did not judge anything: build failure of the
+            # simulator against a changed public API, harness error)
+            rc2 = 1 if "VIOLATION property=" in full else (2 if "violations:" not in full else 0)
+            out = "\n".join(full.splitlines()[:8] if rc2 != 2 else full.splitlines()[-12:])
             clauses = sorted(set(re.findall(r"^\s+(C\d\d\.[a-z-]+):", out, re.M)))
             detected[p] = {"verdict": {0: "silent", 1: "VIOLATION", 2: "error"}[rc2], "clauses": clauses, "wall_s": round(time.time() - t0, 1), "first_lines": out[:900]}
             print("   %s: %s %s" % (p, detected[p]["verdict"], clauses)); sys.stdout.flush()
